@@ -12,11 +12,20 @@ use yuvxyb::{
 const PIX4: [[f32; 3]; 4] = [[0.10, 0.20, 0.30], [0.80, 0.40, 0.20], [0.50, 0.50, 0.50], [0.25, 0.75, 0.95]];
 const CODES: [[u16; 3]; 4] = [[60, 100, 140], [200, 90, 160], [128, 128, 128], [35, 180, 70]];
 /// 4x4 image (so that every subsampling up to 4:1:0 divides it)
-fn pix() -> Vec<[f32; 3]> {
-    (0..16).map(|i| PIX4[(i + i / 4) % 4]).collect()
+fn pix(img: u8) -> Vec<[f32; 3]> {
+    match img {
+        // all grey: whole-image fast paths for achromatic content must not change the contract
+        1 => (0..16).map(|i| [0.1 + 0.05 * i as f32; 3]).collect(),
+        // out-of-gamut floats (negative and super-white)
+        2 => (0..16).map(|i| { let p = PIX4[(i + i / 4) % 4]; [p[0] * 1.6 - 0.3, 1.25 - p[1], p[2] * 1.4 - 0.2] }).collect(),
+        _ => (0..16).map(|i| PIX4[(i + i / 4) % 4]).collect(),
+    }
 }
-fn xyb_pix() -> Vec<[f32; 3]> {
-    pix().into_iter().map(|q| [q[0] * 0.01, q[1] * 0.5, q[2] * 0.5]).collect()
+fn xyb_pix(img: u8) -> Vec<[f32; 3]> {
+    match img {
+        1 => (0..16).map(|i| [0.0, 0.1 + 0.04 * i as f32, 0.1 + 0.04 * i as f32]).collect(),
+        _ => pix(img).into_iter().map(|q| [q[0] * 0.01, q[1] * 0.5, q[2] * 0.5]).collect(),
+    }
 }
 
 /// the part of the configuration that is not metadata: subsampling and range
@@ -24,16 +33,24 @@ fn xyb_pix() -> Vec<[f32; 3]> {
 pub struct Shape {
     pub ss: (u8, u8),
     pub full: bool,
+    /// image content: 0 colourful in-gamut, 1 achromatic (grey pixels / neutral chroma), 2 out-of-gamut floats / extreme codes
+    pub img: u8,
 }
-pub const SHAPES: [Shape; 8] = [
-    Shape { ss: (0, 0), full: false },
-    Shape { ss: (0, 0), full: true },
-    Shape { ss: (1, 1), full: false },
-    Shape { ss: (1, 1), full: true },
-    Shape { ss: (1, 0), full: false },
-    Shape { ss: (1, 0), full: true },
-    Shape { ss: (2, 2), full: false },
-    Shape { ss: (0, 1), full: true },
+pub const SHAPES: [Shape; 14] = [
+    Shape { ss: (0, 0), full: false, img: 0 },
+    Shape { ss: (0, 0), full: true, img: 0 },
+    Shape { ss: (1, 1), full: false, img: 0 },
+    Shape { ss: (1, 1), full: true, img: 0 },
+    Shape { ss: (1, 0), full: false, img: 0 },
+    Shape { ss: (1, 0), full: true, img: 0 },
+    Shape { ss: (2, 2), full: false, img: 0 },
+    Shape { ss: (0, 1), full: true, img: 0 },
+    Shape { ss: (0, 0), full: false, img: 1 },
+    Shape { ss: (1, 1), full: true, img: 1 },
+    Shape { ss: (0, 0), full: false, img: 2 },
+    Shape { ss: (0, 0), full: true, img: 2 },
+    Shape { ss: (1, 1), full: false, img: 2 },
+    Shape { ss: (1, 0), full: true, img: 2 },
 ];
 
 /// outcome of one conversion: Ok(fingerprint of the output) or the error
@@ -46,10 +63,19 @@ fn fp_y<T: Pixel>(y: &Yuv<T>) -> Vec<u32> {
     yuv_samples(y).into_iter().flat_map(|(_, _, s)| s.into_iter().map(u32::from)).collect()
 }
 
-fn mk_yuv<T: Pixel>(c: &YuvConfig) -> Yuv<T> {
+fn mk_yuv<T: Pixel>(c: &YuvConfig, img: u8) -> Yuv<T> {
     let k = if c.bit_depth > 8 { c.bit_depth - 8 } else { 0 };
     let (cw, ch) = (4usize >> c.subsampling_x, 4usize >> c.subsampling_y);
-    let plane = |pl: usize, n: usize| -> Vec<u16> { (0..n).map(|i| CODES[(i + i / 4) % 4][pl] << k).collect() };
+    let max = ((1u32 << c.bit_depth) - 1) as u16;
+    let plane = |pl: usize, n: usize| -> Vec<u16> {
+        (0..n)
+            .map(|i| match img {
+                1 => if pl == 0 { (30 + 12 * i as u16) << k } else { 128 << k },
+                2 => [0, max, 1, max - 1][(i + pl) % 4],
+                _ => CODES[(i + i / 4) % 4][pl] << k,
+            })
+            .collect()
+    };
     let planes = [plane(0, 16), plane(1, cw * ch), plane(2, cw * ch)];
     Yuv::<T>::new(crate::conv::yuv_frame::<T>(4, 4, (c.subsampling_x, c.subsampling_y), [(0, 0); 3], &planes, 0), *c).expect("well-formed 4x4 frame")
 }
@@ -89,18 +115,18 @@ fn run_conv(i: usize, m: MC, p: CP, t: TC, sh: Shape) -> Out {
     let c8 = cfg(m, t, p, 8, sh.full, sh.ss);
     let c10 = cfg(m, t, p, 10, sh.full, sh.ss);
     match i {
-        0 => Rgb::try_from(&mk_yuv::<u8>(&c8)).map(|r| fp_f(r.data())),
-        1 => Yuv::<u8>::try_from((&Rgb::new(pix(), 4, 4, t, p).unwrap(), c8)).map(|y| fp_y(&y)),
-        2 => Rgb::try_from(&mk_yuv::<u16>(&c10)).map(|r| fp_f(r.data())),
-        3 => Yuv::<u16>::try_from((&Rgb::new(pix(), 4, 4, t, p).unwrap(), c10)).map(|y| fp_y(&y)),
-        4 => LinearRgb::try_from(Rgb::new(pix(), 4, 4, t, p).unwrap()).map(|r| fp_f(r.data())),
-        5 => Rgb::try_from((LinearRgb::new(pix(), 4, 4).unwrap(), t, p)).map(|r| fp_f(r.data())),
-        6 => LinearRgb::try_from(&mk_yuv::<u16>(&c10)).map(|r| fp_f(r.data())),
-        7 => Yuv::<u16>::try_from((LinearRgb::new(pix(), 4, 4).unwrap(), c10)).map(|y| fp_y(&y)),
-        8 => Xyb::try_from(&mk_yuv::<u8>(&c8)).map(|r| fp_f(r.data())),
-        9 => Yuv::<u8>::try_from((Xyb::new(xyb_pix(), 4, 4).unwrap(), c8)).map(|y| fp_y(&y)),
-        10 => Xyb::try_from(Rgb::new(pix(), 4, 4, t, p).unwrap()).map(|r| fp_f(r.data())),
-        _ => Rgb::try_from((Xyb::new(xyb_pix(), 4, 4).unwrap(), t, p)).map(|r| fp_f(r.data())),
+        0 => Rgb::try_from(&mk_yuv::<u8>(&c8, sh.img)).map(|r| fp_f(r.data())),
+        1 => Yuv::<u8>::try_from((&Rgb::new(pix(sh.img), 4, 4, t, p).unwrap(), c8)).map(|y| fp_y(&y)),
+        2 => Rgb::try_from(&mk_yuv::<u16>(&c10, sh.img)).map(|r| fp_f(r.data())),
+        3 => Yuv::<u16>::try_from((&Rgb::new(pix(sh.img), 4, 4, t, p).unwrap(), c10)).map(|y| fp_y(&y)),
+        4 => LinearRgb::try_from(Rgb::new(pix(sh.img), 4, 4, t, p).unwrap()).map(|r| fp_f(r.data())),
+        5 => Rgb::try_from((LinearRgb::new(pix(sh.img), 4, 4).unwrap(), t, p)).map(|r| fp_f(r.data())),
+        6 => LinearRgb::try_from(&mk_yuv::<u16>(&c10, sh.img)).map(|r| fp_f(r.data())),
+        7 => Yuv::<u16>::try_from((LinearRgb::new(pix(sh.img), 4, 4).unwrap(), c10)).map(|y| fp_y(&y)),
+        8 => Xyb::try_from(&mk_yuv::<u8>(&c8, sh.img)).map(|r| fp_f(r.data())),
+        9 => Yuv::<u8>::try_from((Xyb::new(xyb_pix(sh.img), 4, 4).unwrap(), c8)).map(|y| fp_y(&y)),
+        10 => Xyb::try_from(Rgb::new(pix(sh.img), 4, 4, t, p).unwrap()).map(|r| fp_f(r.data())),
+        _ => Rgb::try_from((Xyb::new(xyb_pix(sh.img), 4, 4).unwrap(), t, p)).map(|r| fp_f(r.data())),
     }
 }
 
@@ -115,8 +141,8 @@ fn names(m: MC, p: CP, t: TC) -> Value {
 pub fn check_triple(m: MC, p: CP, t: TC, sh: Shape, st: &mut Stats) -> Result<(), Violation> {
     let fail = |sig: String, msg: String| Violation {
         signature: sig,
-        message: format!("{msg} [matrix={:?} primaries={:?} transfer={:?} subsampling={:?} full_range={}]", m, p, t, sh.ss, sh.full),
-        case: json!({"prop":"C14","triple":names(m, p, t),"ss":[sh.ss.0, sh.ss.1],"full":sh.full}),
+        message: format!("{msg} [matrix={:?} primaries={:?} transfer={:?} subsampling={:?} full_range={} image={}]", m, p, t, sh.ss, sh.full, ["colourful", "achromatic", "out-of-gamut"][sh.img as usize % 3]),
+        case: json!({"prop":"C14","triple":names(m, p, t),"ss":[sh.ss.0, sh.ss.1],"full":sh.full,"img":sh.img}),
     };
     let all_supported = STD_MC.contains(&m) && SUP_CP.contains(&p) && SUP_TC.contains(&t);
     let mut outs: Vec<Out> = Vec::with_capacity(NCONV);
@@ -233,13 +259,13 @@ pub fn run(ctx: &Ctx, st: &mut Stats) -> Vec<Violation> {
                 st.nontrivial_by_construction += 1;
             }
             if i % 3001 == 0 {
-                st.samples.push(json!({"triple": names(m, p, t), "ss": [sh.ss.0, sh.ss.1], "full": sh.full}));
+                st.samples.push(json!({"triple": names(m, p, t), "ss": [sh.ss.0, sh.ss.1], "full": sh.full, "img": sh.img}));
             }
         }
         None
     });
     if out.is_empty() {
-        st.exhaustive_parts.push("ALL: 14 x 13 x 18 = 3276 fully specified (matrix, primaries, transfer) triples x 12 conversions (6 forward/reverse pairs), each under 8 (subsampling, range) shapes".into());
+        st.exhaustive_parts.push("ALL: 14 x 13 x 18 = 3276 fully specified (matrix, primaries, transfer) triples x 12 conversions (6 forward/reverse pairs), each under 14 (subsampling, range, image content) shapes".into());
     }
     out
 }
@@ -250,7 +276,8 @@ pub fn replay(v: &Value) -> Result<(), String> {
     let _ = cfg_json(&c);
     let ss = v.get("ss").and_then(|a| a.as_array()).map(|a| (a[0].as_u64().unwrap_or(0) as u8, a[1].as_u64().unwrap_or(0) as u8)).unwrap_or((0, 0));
     let full = v.get("full").and_then(|b| b.as_bool()).unwrap_or(false);
-    check_triple(c.matrix_coefficients, c.color_primaries, c.transfer_characteristics, Shape { ss, full }, &mut Stats::new()).map_err(|v| v.message)
+    let img = v.get("img").and_then(|b| b.as_u64()).unwrap_or(0) as u8;
+    check_triple(c.matrix_coefficients, c.color_primaries, c.transfer_characteristics, Shape { ss, full, img }, &mut Stats::new()).map_err(|v| v.message)
 }
 
-pub const RULE: &str = "complete enumeration (both tiers): every fully specified (MatrixCoefficients, ColorPrimaries, TransferCharacteristic) triple (14 x 13 x 18 = 3276) x 12 conversions on a 4x4 image, repeated for 8 (subsampling, range) shapes: 4:4:4, 4:2:0, 4:2:2, 4:1:0 (2,2), 4:4:0 x limited/full (YUV<->RGB in u8 and u16 storage, gamma<->linear, YUV<->linear, YUV<->XYB, RGB<->XYB). Oracle: no panic; the 7 x 11 x 14 supported triples succeed everywhere; an error is an Unsupported* variant naming a field the conversion uses and that is responsible (counterfactual: replacing only that field by BT.709/BT.1886 removes that error); forward Ok iff reverse Ok; YUV<->RGB and gamma<->linear pairs fail with the same error; with a standard matrix YUV<->RGB output is bit-identical for all transfer/primaries values. A case = one (triple, shape) (all 12 conversions and their counterfactuals); non-trivial = triple outside the all-supported set; distinct by construction";
+pub const RULE: &str = "complete enumeration (both tiers): every fully specified (MatrixCoefficients, ColorPrimaries, TransferCharacteristic) triple (14 x 13 x 18 = 3276) x 12 conversions on a 4x4 image, repeated for 14 shapes: subsampling 4:4:4, 4:2:0, 4:2:2, 4:1:0 (2,2), 4:4:0 x limited/full x image content {colourful in-gamut, achromatic (grey pixels / neutral chroma), out-of-gamut floats / extreme codes} (YUV<->RGB in u8 and u16 storage, gamma<->linear, YUV<->linear, YUV<->XYB, RGB<->XYB). Oracle: no panic; the 7 x 11 x 14 supported triples succeed everywhere; an error is an Unsupported* variant naming a field the conversion uses and that is responsible (counterfactual: replacing only that field by BT.709/BT.1886 removes that error); forward Ok iff reverse Ok; YUV<->RGB and gamma<->linear pairs fail with the same error; with a standard matrix YUV<->RGB output is bit-identical for all transfer/primaries values. A case = one (triple, shape) (all 12 conversions and their counterfactuals); non-trivial = triple outside the all-supported set; distinct by construction";
